@@ -54,14 +54,23 @@ Section Generic.
 Variable T : tables.
 Variable E : list (list Z).
 Variable MD : list Z.
-Hypothesis Hclosed : closed T E MD = true.
+Variable AL : list (list Z).
+Hypothesis Hclosed : closed T E MD AL = true.
 
 Lemma Hlex : lex_ok T = true.
-Proof. unfold closed in Hclosed. apply andb_prop in Hclosed as [H _]. apply andb_prop in H as [H _]. exact H. Qed.
+Proof.
+  pose proof Hclosed as H. unfold closed in H. apply andb_prop in H as [H _]. apply andb_prop in H as [H _].
+  apply andb_prop in H as [H _]. exact H.
+Qed.
 Lemma Hmd : md_ok E MD = true.
-Proof. unfold closed in Hclosed. apply andb_prop in Hclosed as [H _]. apply andb_prop in H as [_ H]. exact H. Qed.
-Lemma Hnodes : forall s, In s (nodes E) -> node_ok T E MD s = true.
-Proof. unfold closed in Hclosed. apply andb_prop in Hclosed as [_ H]. apply forallb_forall. exact H. Qed.
+Proof.
+  pose proof Hclosed as H. unfold closed in H. apply andb_prop in H as [H _]. apply andb_prop in H as [H _].
+  apply andb_prop in H as [_ H]. exact H.
+Qed.
+Lemma Hal0 : al_in AL 0 0 = true.
+Proof. pose proof Hclosed as H. unfold closed in H. apply andb_prop in H as [H _]. apply andb_prop in H as [_ H]. exact H. Qed.
+Lemma Hnodes : forall s, In s (nodes E) -> node_ok T E MD AL s = true.
+Proof. pose proof Hclosed as H. unfold closed in H. apply andb_prop in H as [_ H]. apply forallb_forall. exact H. Qed.
 
 (* ---- yylex1 is total and lands in all_tokens ---- *)
 Lemma tok3_scan_ok : forall fuel l pre token char,
@@ -208,47 +217,115 @@ Proof.
 Qed.
 
 (* ---- the invariant ---- *)
+Definition typed (s v : list Z) : Prop := Forall2 (fun q x => al_in AL x q = true) s v.
+
 Definition Inv (c : cfg) : Prop :=
-  chain (stk c) /\ In (token c) (all_tokens T) /\ 0 <= errflag c <= 3.
-Ltac inv_intro := unfold Inv; cbn [stk token errflag char inp nlex errat]; split; [|split].
+  chain (stk c) /\ typed (stk c) (vals c) /\ In (token c) (all_tokens T) /\ 0 <= errflag c <= 3.
+Ltac inv_intro := unfold Inv; cbn [stk vals token errflag char inp nlex errat]; split; [|split; [|split]].
+
+Lemma typed_skipn : forall k s v, typed s v -> typed (skipn k s) (skipn k v).
+Proof.
+  induction k as [|k IH]; intros s v H; [exact H|]. destruct H as [|q x s v Hx H]; [constructor|].
+  cbn [skipn]. apply IH. exact H.
+Qed.
+
+Lemma typed_nth : forall s v, typed s v -> forall j q, nth_error s j = Some q ->
+  exists x, nth_error v j = Some x /\ al_in AL x q = true.
+Proof.
+  induction 1 as [|q0 x0 s v Hx H IH]; intros j q Hj; [destruct j; discriminate|].
+  destruct j as [|j]; cbn in Hj |- *.
+  - injection Hj as <-. eauto.
+  - apply IH. exact Hj.
+Qed.
+
+Lemma typed_tl : forall q s v, typed (q :: s) v -> typed s (tl v).
+Proof. intros q s v H. inversion H; subst. cbn. assumption. Qed.
+
+Lemma skipn_nth_error : forall (A : Type) n (a : list A) x, nth_error a n = Some x -> skipn n a = x :: skipn (S n) a.
+Proof.
+  induction n as [|n IH]; intros a x H; destruct a as [|y a]; try discriminate.
+  - cbn in H. injection H as ->. reflexivity.
+  - cbn in H. cbn [skipn]. rewrite (IH a x H). reflexivity.
+Qed.
+
+Lemma back_nth : forall s x rest j q, chain s -> s = x :: rest -> nth_error s j = Some q -> In q (back E j [x]).
+Proof.
+  intros s x rest j q Hc Hs Hj.
+  assert (Hl : (j < length s)%nat) by (apply nth_error_Some; congruence).
+  eapply (back_sound j s [x] x rest Hc Hs (or_introl eq_refl) Hl q). apply skipn_nth_error. exact Hj.
+Qed.
+
+(* the value in RHS position k is allowed in one of the states that can hold that position *)
+Lemma slot_typed : forall s0 v x rest r2 k, chain s0 -> typed s0 v -> s0 = x :: rest ->
+  1 <= k <= r2 -> (Z.to_nat r2 < length s0)%nat ->
+  exists ty q, slot v r2 k = Some ty /\ In q (pos_states E x r2 k) /\ al_in AL ty q = true.
+Proof.
+  intros s0 v x rest r2 k Hc Ht Hs Hk Hl. unfold slot, pos_states.
+  replace ((1 <=? k) && (k <=? r2)) with true by lia.
+  destruct (nth_error s0 (Z.to_nat (r2 - k))) as [q|] eqn:Eq.
+  - destruct (typed_nth _ _ Ht _ _ Eq) as [ty [E1 E2]]. exists ty, q. split; [exact E1|]. split; [|exact E2].
+    eapply back_nth; eauto.
+  - apply nth_error_None in Eq. lia.
+Qed.
+
+Lemma mem_eq : forall ty q v, forallb (Z.eqb ty) (allowed AL q) = true -> al_in AL v q = true -> v = ty.
+Proof.
+  intros ty q v Hall Hin. unfold al_in, mem in Hin. apply andb_prop in Hin as [_ Hin].
+  apply existsb_exists in Hin as [y [Hy Hv]]. apply Z.eqb_eq in Hv. subst y.
+  rewrite forallb_forall in Hall. specialize (Hall v Hy). apply Z.eqb_eq in Hall. congruence.
+Qed.
+
+Lemma flows_ok : forall s0 v x rest r2 k ns, chain s0 -> typed s0 v -> s0 = x :: rest ->
+  (Z.to_nat r2 < length s0)%nat -> flows E AL x r2 k ns = true ->
+  exists ty, slot v r2 k = Some ty /\ al_in AL ty ns = true.
+Proof.
+  intros s0 v x rest r2 k ns Hc Ht Hs Hl Hf. unfold flows in Hf.
+  apply andb_prop in Hf as [Hk Hf]. apply andb_prop in Hk as [Hk1 Hk2].
+  destruct (slot_typed s0 v x rest r2 k Hc Ht Hs ltac:(lia) Hl) as [ty [q [E1 [E2 E3]]]].
+  exists ty. split; [exact E1|]. rewrite forallb_forall in Hf. specialize (Hf q E2). rewrite forallb_forall in Hf.
+  apply Hf. unfold al_in, mem in E3. apply andb_prop in E3 as [_ E3]. apply existsb_exists in E3 as [y [Hy Hv]].
+  apply Z.eqb_eq in Hv. subst y. exact Hy.
+Qed.
 
 Lemma ensure_la_ok : forall c, Inv c ->
-  exists c1, ensure_la T c = Ok c1 /\ stk c1 = stk c /\ errflag c1 = errflag c /\ Inv c1.
+  exists c1, ensure_la T c = Ok c1 /\ stk c1 = stk c /\ vals c1 = vals c /\ errflag c1 = errflag c /\ Inv c1.
 Proof.
-  intros c [Hc [Ht He]]. unfold ensure_la. destruct (char c <? 0).
+  intros c [Hc [Hty [Ht He]]]. unfold ensure_la. destruct (char c <? 0).
   - destruct (lexcall (inp c)) as [ch r]. destruct (yylex1_ok ch) as [t [Hy Hin]]. rewrite Hy. cbn [bind].
-    eexists. split; [reflexivity|]. cbn [stk errflag]. split; [reflexivity|split; [reflexivity|]]. inv_intro; auto; lia.
+    eexists. split; [reflexivity|]. cbn [stk vals errflag]. repeat (split; [reflexivity|]). inv_intro; auto; lia.
   - exists c. unfold Inv. repeat split; auto; lia.
 Qed.
 
-Lemma recover_ok : forall s, chain s ->
-  match recover_stk T s with
+Lemma recover_ok : forall s v, chain s -> typed s v ->
+  match recover_stk T s v with
   | Ok None => True
-  | Ok (Some s') => chain s'
+  | Ok (Some (s', v')) => chain s' /\ typed s' v'
   | Panic _ => False
   end.
 Proof.
-  induction s as [|st rest IH]; intro Hc; [destruct Hc|].
+  induction s as [|st rest IH]; intros v Hc Hty; [destruct Hc|].
   cbn [recover_stk].
   pose proof (Hnodes st (chain_top_node _ _ Hc)) as Hn. unfold node_ok in Hn.
   apply andb_prop in Hn as [_ Hn].
   destruct (errshift_of T st) as [[ns|]|] eqn:Ee; [| |discriminate]; cbn [bind].
-  - cbn. split; [exact Hn|exact Hc].
-  - destruct rest as [|p r]; [cbn; exact I|]. apply IH. eapply chain_tail; eauto.
+  - apply andb_prop in Hn as [Hn1 Hn2]. split.
+    + split; [exact Hn1|exact Hc].
+    + constructor; [exact Hn2|exact Hty].
+  - destruct rest as [|p r]; [cbn; exact I|]. apply IH; [eapply chain_tail; eauto|eapply typed_tl; eauto].
 Qed.
 
-Lemma reduce_ok : forall c s rest n, Inv c -> stk c = s :: rest -> red_ok T E MD s n = true ->
+Lemma reduce_ok : forall c s rest n, Inv c -> stk c = s :: rest -> red_ok T E MD AL s n = true ->
   match reduce T c n with
   | Cont c' => Inv c'
   | Crash _ => False
   | _ => True
   end.
 Proof.
-  intros c s rest n [Hc [Ht He]] Hs Hr. unfold red_ok in Hr. unfold reduce.
+  intros c s rest n [Hc [Hty [Ht He]]] Hs Hr. unfold red_ok in Hr. unfold reduce.
   destruct (idx 30 (tR2 T) n) as [r2|] eqn:E2; [|discriminate].
   destruct (idx 32 (tR1 T) n) as [nt|] eqn:E1; [|discriminate].
-  apply andb_prop in Hr as [Hr Hact]. apply andb_prop in Hr as [Hr Hgoto]. apply andb_prop in Hr as [Hr Hpgo].
-  apply andb_prop in Hr as [Hr0 Hrmd]. apply Z.leb_le in Hr0. apply Z.leb_le in Hrmd.
+  apply andb_prop in Hr as [Hr Hsem]. apply andb_prop in Hr as [Hr Hact]. apply andb_prop in Hr as [Hr Hgoto].
+  apply andb_prop in Hr as [Hr Hpgo]. apply andb_prop in Hr as [Hr0 Hrmd]. apply Z.leb_le in Hr0. apply Z.leb_le in Hrmd.
   pose proof (md_depth _ Hc s rest Hs) as Hdepth.
   assert (Hlen : zlen (stk c) = zlen rest + 1) by (rewrite Hs; unfold zlen; cbn [length]; lia).
   destruct (r2 <? 0) eqn:X1; [lia|].
@@ -262,16 +339,42 @@ Proof.
   destruct (goto_of T base nt) as [ns|] eqn:Egoto; [|discriminate].
   assert (Hchain' : chain (ns :: base :: below)).
   { split; [exact Hgoto|]. rewrite <- Esk. apply chain_skipn; assumption. }
-  destruct (action_of n (tActions T)) as [[k [lo hi]]|].
-  - apply andb_prop in Hact as [Hk Hidx]. apply Z.leb_le in Hk.
+  assert (Hslicing : match action_of n (tActions T) with
+        | Some (k, (lo, hi)) =>
+            if zlen (stk c) - 1 - k <? 0 then Some 40%nat
+            else if (lo <=? hi) && ((lo <? 0) || (hi >? k)) then Some 41%nat
+            else None
+        | None => None
+        end = None).
+  { destruct (action_of n (tActions T)) as [[k [lo hi]]|]; [|reflexivity].
+    apply andb_prop in Hact as [Hk Hidx]. apply Z.leb_le in Hk.
     destruct (zlen (stk c) - 1 - k <? 0) eqn:X3; [lia|].
-    destruct ((lo <=? hi) && ((lo <? 0) || (hi >? k))) eqn:X4.
-    + apply andb_prop in X4 as [Xa Xb]. apply Z.leb_le in Xa. apply orb_prop in Hidx as [Hidx|Hidx].
-      * apply Z.ltb_lt in Hidx. lia.
-      * apply andb_prop in Hidx as [Hi1 Hi2]. apply Z.leb_le in Hi1. apply Z.leb_le in Hi2.
-        apply orb_prop in Xb as [Xb|Xb]; [apply Z.ltb_lt in Xb; lia|]. apply Z.gtb_lt in Xb. lia.
-    + inv_intro; auto; lia.
-  - inv_intro; auto; lia.
+    destruct ((lo <=? hi) && ((lo <? 0) || (hi >? k))) eqn:X4; [|reflexivity].
+    apply andb_prop in X4 as [Xa Xb]. apply Z.leb_le in Xa. apply orb_prop in Hidx as [Hidx|Hidx].
+    - apply Z.ltb_lt in Hidx. lia.
+    - apply andb_prop in Hidx as [Hi1 Hi2]. apply Z.leb_le in Hi1. apply Z.leb_le in Hi2.
+      apply orb_prop in Xb as [Xb|Xb]; [apply Z.ltb_lt in Xb; lia|]. apply Z.gtb_lt in Xb. lia. }
+  rewrite Hslicing.
+  (* the semantic action: type assertions and the stored type *)
+  unfold sem_ok in Hsem.
+  destruct (match sem_of n (tSem T) with Some d => d | None => ([], (2, 0)) end) as [asserts o].
+  apply andb_prop in Hsem as [Hass Hst].
+  assert (Hah : asserts_hold (vals c) r2 asserts = true).
+  { unfold asserts_hold. apply forallb_forall. intros a Ha. rewrite forallb_forall in Hass. specialize (Hass a Ha).
+    apply andb_prop in Hass as [Hk Hall]. apply andb_prop in Hk as [Hk1 Hk2].
+    destruct (slot_typed (stk c) (vals c) s rest r2 (fst a) Hc Hty Hs ltac:(lia) Hl) as [ty [q [S1 [S2 S3]]]].
+    rewrite S1. rewrite forallb_forall in Hall. specialize (Hall q S2).
+    apply Z.eqb_eq. eapply mem_eq; eauto. }
+  rewrite Hah. cbn [negb].
+  rewrite forallb_forall in Hst. specialize (Hst base Hb). rewrite Egoto in Hst.
+  assert (Hstored : exists ty, stored (vals c) r2 o = Ok ty /\ al_in AL ty ns = true).
+  { unfold stored. destruct (fst o =? 0); [eauto|]. destruct (fst o =? 1).
+    - destruct (flows_ok (stk c) (vals c) s rest r2 (snd o) ns Hc Hty Hs Hl Hst) as [ty [S1 S2]]. rewrite S1. eauto.
+    - destruct (fst o =? 2); [|eauto]. destruct (1 <=? r2); [|eauto].
+      destruct (flows_ok (stk c) (vals c) s rest r2 1 ns Hc Hty Hs Hl Hst) as [ty [S1 S2]]. rewrite S1. eauto. }
+  destruct Hstored as [ty [S1 S2]]. rewrite S1.
+  inv_intro; auto; try lia.
+  constructor; [exact S2|]. rewrite <- Esk. apply typed_skipn. exact Hty.
 Qed.
 
 Lemma on_error_ok : forall c, Inv c ->
@@ -281,17 +384,17 @@ Lemma on_error_ok : forall c, Inv c ->
   | _ => True
   end.
 Proof.
-  intros c [Hc [Ht He]]. unfold on_error.
-  assert (Hrec : forall c0, stk c0 = stk c -> token c0 = token c ->
-    match (match recover_stk T (stk c0) with
+  intros c [Hc [Hty [Ht He]]]. unfold on_error.
+  assert (Hrec : forall c0, stk c0 = stk c -> vals c0 = vals c -> token c0 = token c ->
+    match (match recover_stk T (stk c0) (vals c0) with
            | Panic s => Crash s
            | Ok None => Reject c0
-           | Ok (Some st') => Cont {| stk := st'; char := char c0; token := token c0; errflag := 3; inp := inp c0;
-                                      nlex := nlex c0; errat := errat c0 |}
+           | Ok (Some (st', v')) => Cont {| stk := st'; vals := v'; char := char c0; token := token c0; errflag := 3;
+                                             inp := inp c0; nlex := nlex c0; errat := errat c0 |}
            end) with Cont c' => Inv c' | Crash _ => False | _ => True end).
-  { intros c0 H1 H2. rewrite H1. pose proof (recover_ok _ Hc) as Hr.
-    destruct (recover_stk T (stk c)) as [[s'|]|]; [|exact I|exact Hr].
-    inv_intro; auto; try lia. rewrite H2. exact Ht. }
+  { intros c0 H1 H1' H2. rewrite H1, H1'. pose proof (recover_ok _ _ Hc Hty) as Hr.
+    destruct (recover_stk T (stk c) (vals c)) as [[[s' v']|]|]; [|exact I|exact Hr].
+    destruct Hr as [Hr1 Hr2]. inv_intro; auto; try lia. rewrite H2. exact Ht. }
   destruct (errflag c =? 0) eqn:E0.
   - apply Hrec; reflexivity.
   - destruct ((errflag c =? 1) || (errflag c =? 2)) eqn:E12.
@@ -310,18 +413,18 @@ Lemma dflt_ok : forall c s rest, Inv c -> stk c = s :: rest ->
   | _ => True
   end.
 Proof.
-  intros c s rest HI Hs. pose proof HI as [Hc [Ht He]].
+  intros c s rest HI Hs. pose proof HI as [Hc [Hty [Ht He]]].
   assert (Hnode : In s (nodes E)) by (rewrite Hs in Hc; eapply chain_top_node; eauto).
   pose proof (Hnodes s Hnode) as Hn. unfold node_ok in Hn.
   apply andb_prop in Hn as [Hn _]. apply andb_prop in Hn as [_ Hdef].
   unfold dflt. destruct (idx 13 (tDef T) s) as [d|]; [|discriminate].
   destruct (d =? -2).
-  - destruct (ensure_la_ok c HI) as [c2 [H2 [Hstk [Herr HI2]]]]. rewrite H2.
-    rewrite forallb_forall in Hdef. destruct HI2 as [Hc2 [Ht2 He2]]. specialize (Hdef (token c2) Ht2).
+  - destruct (ensure_la_ok c HI) as [c2 [H2 [Hstk [Hvals [Herr HI2]]]]]. rewrite H2.
+    rewrite forallb_forall in Hdef. pose proof HI2 as [Hc2 [Hty2 [Ht2 He2]]]. specialize (Hdef (token c2) Ht2).
     destruct (exca_lookup T s (token c2)) as [n|]; [|discriminate].
     destruct (n <? 0); [exact I|]. destruct (n =? 0).
-    + apply on_error_ok. repeat split; auto; lia.
-    + cbn in Hdef. eapply reduce_ok; [repeat split; eauto; lia|rewrite Hstk; exact Hs|exact Hdef].
+    + apply on_error_ok. exact HI2.
+    + cbn in Hdef. eapply reduce_ok; [exact HI2|rewrite Hstk; exact Hs|exact Hdef].
   - destruct (d =? 0).
     + apply on_error_ok. exact HI.
     + cbn in Hdef. eapply reduce_ok; eauto.
@@ -334,7 +437,7 @@ Lemma step_ok : forall c, Inv c ->
   | _ => True
   end.
 Proof.
-  intros c HI. pose proof HI as [Hc [Ht He]]. unfold step.
+  intros c HI. pose proof HI as [Hc [Hty [Ht He]]]. unfold step.
   destruct (stk c) as [|s rest] eqn:Hs; [destruct Hc|].
   assert (Hnode : In s (nodes E)) by (eapply chain_top_node; eauto).
   pose proof (Hnodes s Hnode) as Hn. unfold node_ok in Hn.
@@ -342,12 +445,13 @@ Proof.
   apply andb_prop in Hn as [_ Hsimple].
   destruct (simple_state T s) as [[|]|]; [| |discriminate].
   - eapply dflt_ok; eauto.
-  - destruct (ensure_la_ok c HI) as [c1 [H1 [Hstk [Herr HI1]]]]. rewrite H1.
-    pose proof HI1 as [Hc1 [Ht1 He1]].
+  - destruct (ensure_la_ok c HI) as [c1 [H1 [Hstk [Hvals [Herr HI1]]]]]. rewrite H1.
+    pose proof HI1 as [Hc1 [Hty1 [Ht1 He1]]].
     rewrite forallb_forall in Hshift. specialize (Hshift (token c1) Ht1).
     destruct (shift_of T s (token c1)) as [[a|]|]; [| |discriminate].
-    + inv_intro.
-      * rewrite Hstk, Hs. split; [exact Hshift|exact Hc].
+    + apply andb_prop in Hshift as [Hsh1 Hsh2]. inv_intro.
+      * rewrite Hstk, Hs. split; [exact Hsh1|exact Hc].
+      * constructor; [exact Hsh2|exact Hty1].
       * apply in_all_tokens. left. reflexivity.
       * destruct (errflag c1 >? 0) eqn:G; lia.
     + eapply dflt_ok; eauto. rewrite Hstk. exact Hs.
@@ -355,7 +459,9 @@ Qed.
 
 Lemma init_inv : forall i, Inv (init i).
 Proof.
-  intro i. unfold init. inv_intro; [reflexivity| |lia]. apply in_all_tokens. left. reflexivity.
+  intro i. unfold init. inv_intro; [reflexivity| | |lia].
+  - constructor; [exact Hal0|constructor].
+  - apply in_all_tokens. left. reflexivity.
 Qed.
 
 Lemma run_inv : forall fuel c, Inv c -> forall site, run T fuel c <> OPanic site.
@@ -371,3 +477,6 @@ Theorem driver_never_panics : forall (input : list Z) (fuel : nat) (site : nat),
 Proof. intros. apply run_inv. apply init_inv. Qed.
 
 End Generic.
+
+(* AL is determined by the closedness proof (keeps the earlier argument list usable) *)
+Arguments yylex1_ok T E MD {AL} _ ch.
